@@ -65,6 +65,7 @@ type cliResult struct {
 	Typ    int
 	Nil    bool
 	Err    string
+	Wire   []byte // encoding of the returned datagram
 }
 
 type cliWrite struct {
@@ -151,8 +152,8 @@ func runCliScenario(t *testing.T, sc cliScenario) cliOutcome {
 					return true
 				}
 				go func() {
-					serial, typ, isNil, err := ad.call(ctx, req, match, cl.Matcher == 0)
-					out.Results[i] = cliResult{Done: true, At: ticksOf(conn.Since()), Serial: serial, Typ: typ, Nil: isNil, Err: ad.classify(err)}
+					serial, typ, isNil, wire, err := ad.call(ctx, req, match, cl.Matcher == 0)
+					out.Results[i] = cliResult{Done: true, At: ticksOf(conn.Since()), Serial: serial, Typ: typ, Nil: isNil, Err: ad.classify(err), Wire: wire}
 				}()
 			})
 			if cl.CancelAt >= 0 {
@@ -501,6 +502,21 @@ func cmpCli(prop string, sc cliScenario, got cliOutcome, asp int) *obs.Fail {
 		}
 		if asp&aspIdentity != 0 && w.Err == "nil" && g.Err == "nil" && (g.Serial != w.Serial || g.Typ != w.Typ) {
 			return obs.Failf(prop+"/"+name+"/wrong-response", fmt.Sprintf("call %d returns datagram serial %d (type %d): the first one in arrival order its matcher accepts", i, w.Serial, w.Typ), "serial %d (type %d)", g.Serial, g.Typ)
+		}
+		if asp&aspIdentity != 0 && w.Err == "nil" && g.Err == "nil" {
+			// the returned message is the delivered datagram, whole (not a truncated or foreign one with the same tag)
+			for _, d := range sc.Dels {
+				if d.Serial == w.Serial && d.Kind == dgGood {
+					ad := cliAdapter(&v4Adapter{})
+					if sc.V6 {
+						ad = &v6Adapter{}
+					}
+					if sent := ad.datagram(d.Kind, d.Xid, d.Typ, d.Serial, d.Op, d.HType, d.PadTo); !bytes.Equal(sent, g.Wire) {
+						return obs.Failf(prop+"/"+name+"/response-content", fmt.Sprintf("call %d returns datagram %d as delivered (%d bytes)", i, d.Serial, len(sent)), "%d bytes, differs at byte %d", len(g.Wire), firstDiff(sent, g.Wire))
+					}
+					break
+				}
+			}
 		}
 		if asp&aspTiming != 0 && g.At != w.At {
 			return obs.Failf(prop+"/"+name+"/return-instant", fmt.Sprintf("call %d returns at tick %d (%s)", i, w.At, w.Err), "tick %d", g.At)
